@@ -409,7 +409,7 @@ class MgRun:
             od = OPS[st["op"]]
             kw = {}
             if st.get("constant") is not None:
-                kw["constant"] = st["constant"]
+                kw["constant"] = np.bool_(True) if st["constant"] == "np_bool" else st["constant"]
             args = [env[a] for a in st["args"]]
             env[st["h"]] = od.mg(mg, args, st.get("p", {}), kw)
         elif k == "inplace":
@@ -429,6 +429,15 @@ class MgRun:
             env.pop(st["h"], None)
         elif k == "guard":
             (mg.turn_memory_guarding_on if st["on"] else mg.turn_memory_guarding_off)()
+        elif k == "bad_out":
+            # (only ever inside a "fail" statement) an op called with an out= ndarray that cannot be written
+            vals = [env[a] for a in st["args"]]
+            if st["mode"] == "native_ro":
+                out = np.zeros(np.broadcast_shapes(*[np.shape(v) for v in vals]))
+                out.flags.writeable = False
+            else:
+                out = vals[0].data  # read-only for as long as the op holds its operand
+            getattr(np if st.get("via") == "np" else mg, st["op"])(*vals, out=out)
         else:  # pragma: no cover
             raise HarnessError(k)
 
